@@ -152,6 +152,13 @@ Example C04_example_legacy :
   bget 1 s' = Some 1 /\ bget 3 s' = Some 3 /\ debris s' = [] /\ length (blobs s') = 11%nat.
 Proof. vm_compute. repeat split. Qed.
 
+(** a blob in which no GGUF can be decoded (a GGUF cut inside its header) is rejected by create: nothing is written
+    (repaired, fixes/C04-create-empty-gguf.patch; unrepaired, a manifest without any layer was written and listed) *)
+Example C04_empty_gguf_rejected :
+  let s := exec ex_sz empty_store (OBlob (MkDigest true 1) 1) in
+  op_run ex_sz s (OCreate (MkCreate ex_a (BFiles (MkDigest true 1) [] false []) None (Some 2) [] None None 30)) = (init s, RErr).
+Proof. reflexivity. Qed.
+
 (** ** The defects of the unrepaired code, on its model *)
 
 (** getExistingName, unrepaired: on a store that holds two spellings of a name part the answer depends on the map
